@@ -19,6 +19,7 @@
 -/
 import Alpaqa.Proofs.C11Loop
 import Alpaqa.Proofs.C11Real
+import Alpaqa.Proofs.C11Restrict
 
 namespace Alpaqa.Props.C11
 open Alpaqa Alpaqa.C11 Alpaqa.Gen.C11
@@ -103,6 +104,14 @@ variable (L : Lawful cs) (hB : SymLin n B) (hg : g.length = n) (hΔ : 0 < Δ) (h
 /-- The tolerance of the run: `fmin(tol_max, tol_scale * ‖g‖ * fmin(tol_scale_root, sqrt ‖g‖))`. -/
 abbrev runTol (tolMax tolScale tolRoot : α) (g : Vec α) : α :=
   cgTolerance tolMax tolScale tolRoot (norm2 g)
+
+/-- The tolerance is the documented rule
+    `min(tol_max, tol_scale · ‖g‖ · min(tol_scale_root, √‖g‖))` (`SteihaugCGParams::tol_scale`). -/
+theorem tolerance_rule (L : Lawful cs) (tolMax tolScale tolRoot : α) (g : Vec α) :
+    runTol tolMax tolScale tolRoot g =
+      min tolMax (tolScale * norm2 g * min tolRoot (RealLike.sqrt (norm2 g))) := by
+  unfold runTol cgTolerance
+  rw [fminS_eq_min L, fminS_eq_min L]
 
 /-- States the loop visits in the run on `(B, g, Δ, params)`. -/
 abbrev Visited (cs : α → α → α) (B : Vec α → Vec α) (g : Vec α) (Δ : α)
@@ -331,6 +340,21 @@ def ntrG (H : Vec α → Vec α) (J : List Nat) (γ : α) (p : Vec α) (hvf : α
     ntrRhsHess (ntrRhs γ (gather J p)) (gather J (H (overlay p J (zeros J.length)))) hvf
   else ntrRhs γ (gather J p)
 
+/-- The reduced gradient handed to Steihaug is `r_J = −p_J/γ + hessian_vec_factor · (∇²ψ · q⁰)_J`, where
+    `q⁰` is `p` on the active set `K` and `0` on `J` (equation (9) of the PANTR paper); the Hessian term
+    is skipped when the factor is zero. -/
+theorem newtonTR_reduced_gradient :
+    ntrG H J γ p hvf =
+      if hvf ≠ 0 then
+        vadd (smul (-(1 / γ)) (gather J p)) (smul hvf (gather J (H (overlay p J (zeros J.length)))))
+      else smul (-(1 / γ)) (gather J p) := by
+  have h1 : ntrRhs γ (gather J p) = smul (-(1 / γ)) (gather J p) := by
+    unfold ntrRhs; rw [neg_div]
+  unfold ntrG
+  by_cases h : hvf = 0
+  · simp [ntrUseHess, h, h1]
+  · simp [ntrUseHess, h, h1, ntrRhsHess]
+
 /-- `apply` throws exactly on a non-finite or too small radius; otherwise it returns the result of
     the Steihaug run on `(ntrB, ntrG, radius)`, scattered into `q(J)`, with
     value `= steihaug value − ‖p_K‖² / (2γ)` as the code computes it. -/
@@ -385,21 +409,38 @@ theorem newtonTR_return {o : NtrOut α}
   subst h
   exact ⟨rfl, rfl⟩
 
-/-- The value Newton-TR returns is the model decrease of the combined step:
-    `⟨r_J, q_J⟩ + ½⟨q_J, B_J q_J⟩ − ‖p_K‖²/(2γ)` with `‖q_J‖² ≤ radius²`, whenever the reduced
-    operator is linear symmetric and the reduced gradient is non-zero (Steihaug's hypotheses). -/
+/-- The reduced operator is linear and symmetric whenever `∇²ψ` is, for any duplicate-free in-range
+    index set `J` (what `eval_inactive_indices_res_lna` returns). -/
+theorem newtonTR_operator_symLin {n : Nat} (hH : SymLin n H) (hn : J.Nodup) (hJ : ∀ j ∈ J, j < n) :
+    SymLin J.length (ntrB H J n) :=
+  restricted_symLin hH J hn hJ
+
+theorem length_ntrG : (ntrG H J γ p hvf).length = J.length := by
+  unfold ntrG ntrRhs ntrRhsHess
+  split_ifs <;> simp [gather]
+
+/-- **newtonTR_model_decrease**: for a linear symmetric `∇²ψ` the value Newton-TR returns is the model
+    decrease of the combined step, `⟨r_J, q_J⟩ + ½⟨q_J, H_JJ q_J⟩ − ‖p_K‖²/(2γ)`, with `‖q_J‖² ≤ radius²`
+    and a non-positive Steihaug part; it is negative as soon as `γ > 0`.  (`r_J ≠ 0` is Steihaug's forced
+    hypothesis; see the header.) -/
 theorem newtonTR_model_decrease (L : Lawful cs) {o : NtrOut α}
     (h : newtonTR cs H J γ p hvf radius epsMach tolMax tolScale tolRoot maxIter = some o)
-    (hB : SymLin J.length (ntrB H J p.length)) (hlen : (ntrG H J γ p hvf).length = J.length)
+    (hH : SymLin p.length H) (hn : J.Nodup) (hJ : ∀ j ∈ J, j < p.length)
     (hrad : 0 < radius) (hg0 : ntrG H J γ p hvf ≠ zeros (ntrG H J γ p hvf).length) :
     o.val = dot (ntrG H J γ p hvf) o.cg.s + 1 / 2 * dot o.cg.s (ntrB H J p.length o.cg.s) -
         sqNorm (gather (complement J p.length) p) / (2 * γ) ∧
-    sqNorm o.cg.s ≤ radius * radius ∧ o.cg.q ≤ 0 := by
+    sqNorm o.cg.s ≤ radius * radius ∧ o.cg.q ≤ 0 ∧ (0 < γ → o.val ≤ 0) := by
+  have hB := newtonTR_operator_symLin (H := H) hH hn hJ
+  have hlen := length_ntrG (H := H) (J := J) (γ := γ) (p := p) (hvf := hvf)
   obtain ⟨h1, h2⟩ := newtonTR_return h
+  have hq := value_le_zero tolMax tolScale tolRoot maxIter L hB hlen hrad hg0
   rw [h2, h1]
-  exact ⟨by rw [model_value_exact tolMax tolScale tolRoot maxIter L hB hlen hrad hg0],
-    (step_in_region tolMax tolScale tolRoot maxIter L hB hlen hrad hg0).2.1,
-    value_le_zero tolMax tolScale tolRoot maxIter L hB hlen hrad hg0⟩
+  refine ⟨by rw [model_value_exact tolMax tolScale tolRoot maxIter L hB hlen hrad hg0],
+    (step_in_region tolMax tolScale tolRoot maxIter L hB hlen hrad hg0).2.1, hq, ?_⟩
+  intro hγ
+  have : 0 ≤ sqNorm (gather (complement J p.length) p) / (2 * γ) :=
+    div_nonneg (sqNorm_nonneg _) (by linarith)
+  linarith
 
 end ntr
 
@@ -442,6 +483,24 @@ example :
     (steihaug csReal (matVec [[2, 1], [1, -3]]) [1, 0] 1 1 1 (1/2) 2).q ≤ 0 :=
   ⟨(step_in_region 1 1 (1/2) 2 lawful_real (symLin_indefinite ℝ) rfl one_pos (by simp [zeros])).2.1,
    value_le_zero 1 1 (1/2) 2 lawful_real (symLin_indefinite ℝ) rfl one_pos (by simp [zeros])⟩
+
+theorem ntrG_example :
+    ntrG (matVec ([[2, 1], [1, -3]] : List (Vec ℝ))) [1] 1 [1, 2] 1 = [-1] := by
+  rw [newtonTR_reduced_gradient]
+  norm_num [gather, overlay, matVec, zeros, vget, List.findIdx?, List.range, List.range.loop,
+    dot_cons, List.findIdx?.go]
+
+/-- Newton-TR hypotheses at once: indefinite `∇²ψ`, `J = {1}`, `K = {0}`, `p = (1, 2)`, `γ = 1`. -/
+example (o : NtrOut ℝ) (eps : ℝ)
+    (h : newtonTR csReal (matVec [[2, 1], [1, -3]]) [1] 1 [1, 2] 1 1 eps 1 1 (1/2) 1 = some o) :
+    o.val ≤ 0 ∧ vget o.q 0 = 1 := by
+  have hg : ntrG (matVec ([[2, 1], [1, -3]] : List (Vec ℝ))) [1] 1 [1, 2] 1 ≠
+      zeros (ntrG (matVec ([[2, 1], [1, -3]] : List (Vec ℝ))) [1] 1 [1, 2] 1).length := by
+    rw [ntrG_example]; simp [zeros]
+  refine ⟨(newtonTR_model_decrease lawful_real h (symLin_indefinite ℝ) (by decide) (by decide)
+    one_pos hg).2.2.2 one_pos, ?_⟩
+  have := (newtonTR_active_eq_fb h).2.1 0 (by decide)
+  simpa [vget] using this
 
 end examples
 
